@@ -210,7 +210,7 @@ func (fr *Frame) tryTriangle(b *ssa.BasicBlock, c *Term) (*ssa.BasicBlock, map[*
 				}
 			}
 		}
-		if !hasList {
+		if !hasList && !(s.mergeScalars && pureScalarBlock(then) && scalarPhis(join)) {
 			return nil, nil
 		}
 		n := len(s.pc)
@@ -244,7 +244,90 @@ func (fr *Frame) tryTriangle(b *ssa.BasicBlock, c *Term) (*ssa.BasicBlock, map[*
 	if j, m := try(b.Succs[0], b.Succs[1], c); j != nil {
 		return j, m
 	}
-	return try(b.Succs[1], b.Succs[0], Not(c))
+	if j, m := try(b.Succs[1], b.Succs[0], Not(c)); j != nil {
+		return j, m
+	}
+	// diamond: `if c { A } else { B }; join` with A and B pure scalar blocks
+	s := fr.st
+	A, B := b.Succs[0], b.Succs[1]
+	if s.mergeScalars && len(A.Preds) == 1 && len(B.Preds) == 1 && len(A.Succs) == 1 && len(B.Succs) == 1 && A.Succs[0] == B.Succs[0] &&
+		pureScalarBlock(A) && pureScalarBlock(B) && scalarPhis(A.Succs[0]) && len(A.Succs[0].Preds) == 2 {
+		join := A.Succs[0]
+		run := func(blk *ssa.BasicBlock, cond *Term) {
+			n := len(s.pc)
+			s.pc = append(s.pc, cond)
+			for _, in := range blk.Instrs {
+				if _, ok := in.(*ssa.Jump); ok {
+					continue
+				}
+				fr.exec(in)
+			}
+			s.pc = s.pc[:n]
+		}
+		run(A, c)
+		run(B, Not(c))
+		merged := map[*ssa.Phi]Value{}
+		for _, in := range join.Instrs {
+			phi, ok := in.(*ssa.Phi)
+			if !ok {
+				continue
+			}
+			var av, bv Value
+			for i, p := range join.Preds {
+				if p == A {
+					av = fr.get(phi.Edges[i])
+				}
+				if p == B {
+					bv = fr.get(phi.Edges[i])
+				}
+			}
+			merged[phi] = s.iteValue(c, av, bv)
+		}
+		return join, merged
+	}
+	return nil, nil
+}
+
+// pureScalarBlock: only side-effect-free scalar computations (no loads, stores, calls).
+func pureScalarBlock(b *ssa.BasicBlock) bool {
+	if len(b.Instrs) > 12 {
+		return false
+	}
+	for _, in := range b.Instrs {
+		switch x := in.(type) {
+		case *ssa.BinOp:
+			if x.Op == token.QUO || x.Op == token.REM || x.Op == token.SHL || x.Op == token.SHR {
+				return false // may carry safety obligations
+			}
+		case *ssa.Convert, *ssa.ChangeType, *ssa.Jump, *ssa.DebugRef:
+		case *ssa.Lookup:
+			if _, isMap := x.X.Type().Underlying().(*types.Map); !isMap {
+				return false
+			}
+		case *ssa.UnOp:
+			if x.Op == token.MUL || x.Op == token.ARROW {
+				g, ok := x.X.(*ssa.Global)
+				if !ok || x.Op != token.MUL {
+					return false
+				}
+				_ = g // load of a package-level variable (constant tables)
+			}
+		default:
+			return false
+		}
+	}
+	return true
+}
+
+func scalarPhis(join *ssa.BasicBlock) bool {
+	for _, in := range join.Instrs {
+		if phi, ok := in.(*ssa.Phi); ok {
+			if _, sc := sortOf(phi.Type()); !sc {
+				return false
+			}
+		}
+	}
+	return true
 }
 
 // ---- guarded iteration over a list ---------------------------------------------------------
@@ -593,6 +676,17 @@ func (s *State) constMapLookup(m *ConstMapV, key Value, commaOk bool, where stri
 			}
 			return ret(zero, False)
 		}
+		if !cm.valStr {
+			// symbolic string key, scalar values: an ite chain over the keys (no forking; usable in specifications)
+			var v *Term = asTerm(zero)
+			found := False
+			for i := len(cm.keysStr) - 1; i >= 0; i-- {
+				eq := s.stringEq(k, strV(cm.keysStr[i]))
+				v = Ite(eq, Const(cm.valW, cm.valsInt[i]), v)
+				found = Or(found, eq)
+			}
+			return ret(v, found)
+		}
 		unsup("constant map %s looked up with a string that is neither a literal nor an Itoa result", m.Name)
 	}
 	if _, isStr := key.(*StringV); isStr {
@@ -606,6 +700,17 @@ func (s *State) constMapLookup(m *ConstMapV, key Value, commaOk bool, where stri
 			}
 		}
 		return ret(zero, False)
+	}
+	if !cm.valStr {
+		// scalar values: an ite chain over the keys
+		var v *Term = asTerm(zero)
+		found := False
+		for i := len(cm.keysInt) - 1; i >= 0; i-- {
+			eq := Eq(kt, Const(cm.keyW, cm.keysInt[i]))
+			v = Ite(eq, Const(cm.valW, cm.valsInt[i]), v)
+			found = Or(found, eq)
+		}
+		return ret(v, found)
 	}
 	// symbolic key: case split over the entries (and "none of them")
 	n := len(cm.keysInt)
@@ -650,6 +755,11 @@ func registerEnumModels() {
 				return []Value{Const(64, 0), s.opaqueErr("strconv.NumError")}
 			}
 			return []Value{Const(64, uint64(int64(v))), s.zeroValue(errorType())}
+		}
+		if x.ID != nil {
+			// a string with identity: Atoi is a function of it (code and specification see the same number)
+			errT := App("atoi_errtype", BV(32), x.ID)
+			return []Value{App("atoi_val", BV(64), x.ID), &IfaceV{Type: errT, Handle: App("atoi_errh", BV(64), x.ID), Static: errorType(), alts: map[int]Value{}}}
 		}
 		return []Value{s.freshVar("atoi", BV(64)), s.symValue(errorType(), "atoi.err")}
 	}
